@@ -210,6 +210,22 @@ Example ex_passed_checkpoint_now_enforced :
   cps_functional (sm_cps cfg).
 Proof. vm_compute. repeat split; try reflexivity. intros c1 c2 [<-|[]] [<-|[]] _. reflexivity. Qed.
 
+(* the header matching the cursor's checkpoint counts whatever its state on arrival: peer 7 delivers 30 (height 1, contradicts
+   checkpoint 1 = 20) which is stored as the tip and gets it dropped; peer 8 then delivers 20 <- 21: 20 arrives STALE (equal
+   work) and joins the longest chain through its child's reorganisation; the cursor moves on to checkpoint 3 and the follow-up
+   request stops at its hash *)
+Example ex_stale_matching_header_advances :
+  let cfg := {| c_cps := [(1, 20%N); (3, 22%N)]; c_disable := false; c_forb := []; c_now := 0 |} in
+  let st0 := fst (on_new_peer cfg 0 (d_init cfg (init 1 (ex_pl 486604799))) 7 true 1) in
+  let '(st1, e1) := on_headers cfg st0 7 [ex_sub 30 1 545259519] in
+  let st2 := fst (on_done cfg 0 st1 7) in
+  let st3 := fst (on_new_peer cfg 0 st2 8 true 3) in
+  let '(st4, e4) := on_headers cfg st3 8 [ex_sub 20 1 545259519; ex_sub 21 20 545259519] in
+  e1 = [Disconnect 7] /\ option_map id (tipB (d_store st1)) = Some 30%N /\ d_next st1 = Some (1, 20%N) /\
+  option_map id (tipB (d_store st4)) = Some 21%N /\ d_next st4 = Some (3, 22%N) /\
+  exists loc, e4 = [GetHeaders 8 loc 22%N].
+Proof. vm_compute. repeat split; try reflexivity. eexists; reflexivity. Qed.
+
 Example ex_exp_stale_contradiction_dropped :
   let cfg := {| x_cps := [(1, 20%N)]; x_forb := [] |} in
   let s := run_from [] (init 1 (ex_pl 486604799)) exA in                         (* another peer has passed the checkpoint *)
